@@ -53,7 +53,7 @@ def run(ctx):
     mods = [d, os.path.join(common.VERIF, "corpus", "c10")]
     for m in mods:
         for sanity in (False, True):
-            r, err = wt.analyze(m, sanity=sanity)
+            r, err = wt.analyze(m, sanity=sanity, sites=True)
             runs += 1
             if r is None:
                 ibad.append("run failed: %s" % err)
